@@ -9,7 +9,9 @@ HARNESS = {'asan': ['xvexec']}
 RULE = ('lane A (exhaustive): one element type with a generated content model, every child-name sequence up to length L over <=3 names, one '
         'sequence per line of one document, plus ten pumped sequences of 33-59 children; the set of lines carrying a validity error must equal the set '
         'of non-members (membership decided by a position automaton and by re.fullmatch up to length 5 / Brzozowski derivatives beyond). non-trivial = model has >=2 operators or is non-deterministic; every sequence is counted in '
-        '`sequences`. lane B: random DTD (1-6 element types, ten attribute types x four default kinds, declarations in internal subset / external '
+        '`sequences`. lane A-big: models with 33..140 leaf positions (long runs of optional names with a repeated name at both ends and in the '
+        'middle, choices of 40+ names, sequences of nested groups), sequences = members found by walking the model + single-edit neighbours, '
+        'same per-line oracle. lane B: random DTD (1-6 element types, ten attribute types x four default kinds, declarations in internal subset / external '
         'subset / internal+external parameter entities / conditional sections) + instance valid by construction; lane C: the same with one injected '
         'violation, one small campaign per mutation kind (34 kinds) on every worker; verdict always recomputed by the model validator. non-trivial(B) = instance uses a children model with >=2 operators, a '
         'defaulted or tokenised attribute, an entity reference, standalone=yes with external declarations, or a non-internal declaration; '
@@ -169,6 +171,14 @@ def lane_a(draw, tier):
     text, files, rows = dm.exhaustive_doc(cm, alphabet, L, leaf, ch, loc)
     return {'lane': 'A', 'cm': cm, 'alphabet': alphabet, 'L': L, 'text': text, 'files': files, 'rows': rows, 'loc': loc, 'ns': int(ch.bool()), 'off_diag': int(ch.bool())}
 
+@st.composite
+def lane_big(draw, tier):
+    """lane A-big: content models with 33..140 leaf positions (DFA state sets wider than one 32-bit word, > 128: dynamic representation)"""
+    ch = dm.Ch(draw)
+    cm, names = dm.gen_big_cm(ch)
+    text, rows = dm.big_doc(ch, cm, names, 24 if tier == 'quick' else 40)
+    return {'lane': 'A', 'cm': cm, 'alphabet': names, 'L': 0, 'text': text, 'files': {}, 'rows': rows, 'loc': 'int', 'ns': int(ch.bool()), 'off_diag': int(ch.bool())}
+
 def build_a(g):
     rows = [[ln, ' '.join(seq), bool(ok)] for ln, seq, ok, agree in g['rows'] if agree]
     return {'lane': 'A', 'ns': g['ns'], 'off_diag': g['off_diag'], 'model': dm.render_cm(g['cm']), 'doc_b64': b64(g['text']), 'files_b64': {k: b64(v) for k, v in g['files'].items()},
@@ -279,6 +289,22 @@ def worker(ctx):
         ok, detail = check_case(case, ex)
         if not ok: fail(case, detail)
 
+    def prop_big(g):
+        if any(not agree for _, _, _, agree in g['rows']): st_.oracle_disagreements += 1
+        case = build_a(g)
+        case['model'] = case['model'][:400] + (' ...' if len(case['model']) > 400 else '')
+        leaves = dm.count_leaves(g['cm'][1])
+        det = dm.Glushkov(g['cm'][1]).deterministic()
+        labels = ['lane:A-big', 'ns:%d' % g['ns'], 'Abig:leaves=%s' % ('33-64' if leaves <= 64 else '65-128' if leaves <= 128 else '>128'),
+                  'Abig:deterministic' if det else 'Abig:nondeterministic']
+        nrej = sum(1 for r in case['rows'] if not r[2])
+        st_.extra['sequences'] += len(case['rows']); st_.extra['sequences_rejected_by_model'] += nrej
+        bump(hist_a, 'big/' + labels[2][5:])
+        st_.note(xv.sha([case['doc_b64'], case['ns']]), True, labels)
+        st_.sample({'lane': 'A-big', 'leaves': leaves, 'model': case['model'][:200], 'sequences': len(case['rows']), 'rejected': nrej}, limit=5)
+        ok, detail = check_case(case, ex)
+        if not ok: fail(case, detail)
+
     def fail(case, detail):
         # evaluation count at which this worker first saw a failure (sensitivity runs read it from the evidence)
         if 'first_failure_at_evaluation' not in st_.extra: st_.extra['first_failure_at_evaluation'] = [st_.evaluations]
@@ -307,8 +333,9 @@ def worker(ctx):
         ok, detail = check_case(case, ex)
         if not ok: fail(case, detail)
 
-    na = max(4, ctx.budget // 13)
+    na = max(4, ctx.budget // 16)
     hyp_run(ctx, lane_a(ctx.tier), prop_a, na, batches=2, seed_salt=7)
+    hyp_run(ctx, lane_big(ctx.tier), prop_big, max(4, ctx.budget // 30), batches=2, seed_salt=9)
     nb = ctx.budget * 2 // 5
     hyp_run(ctx, lane_bc(ctx.tier), prop_bc, nb, batches=2, seed_salt=11)
     per = max(3, (ctx.budget - nb) // len(dm.MUTATIONS))
